@@ -168,10 +168,18 @@ func init() {
 						v, class = fmt.Sprintf("%dm", r.Intn(200000)), "minutes"
 					case 2:
 						v, class = fmt.Sprintf("%d.%03ds", r.Intn(4000000), r.Intn(1000)), "fractional-seconds"
+						if r.Chance(1, 3) {
+							v = fmt.Sprintf("%d.%ds", r.Intn(4000), r.Pick(95, 96, 975, 99, 999, 9999, 949, 5, 49, 51))
+							class = "fractional-seconds-near-carry"
+						}
 					case 3:
 						v, class = fmt.Sprintf("%dms", r.U64()%4000000000), "millis"
 					case 4:
 						v, class = fmt.Sprintf("-%ds", 1+r.Intn(100000)), "negative"
+						if r.Bool() {
+							v = []string{"-1ns", "-1us", "-1ms", "-500ms", "-999ms", "-0.5s", "-1.5s", "-0.000000001s", "-1h0m0.5s"}[r.Intn(9)]
+							class = "negative-subsecond"
+						}
 					case 5:
 						v, class = []string{"", "abc", "1d", "10", "1h-", "١s", "1 h", "h1"}[r.Intn(8)], "unparsable"
 					case 6:
